@@ -127,11 +127,30 @@ func init() {
 				}
 			}
 			reps := tierReps(c.Tier, 5, 10)
-			outs, _ := runScenario(c, s, r, reps, &res, func(in *Inst, o *Outcome) {
-				det := map[string]interface{}{"scenario": s.String(), "class": o.Class, "err": firstLine(errStr(o.Err)), "events": eventsStr(o.Events)}
+			zero := -1
+			if r.Intn(4) == 0 {
+				// one exactly matching input is the zero value of its type
+				zero = exact[r.Intn(len(exact))]
+				res.obs("cases_with_a_zero_valued_exact_input", 1)
+			}
+			var checkExact func(in *Inst, o *Outcome, again bool)
+			checkExact = func(in *Inst, o *Outcome, again bool) {
+				det := map[string]interface{}{"scenario": s.String(), "class": o.Class, "err": firstLine(errStr(o.Err)), "events": eventsStr(o.Events), "second_call_on_same_func": again, "zero_valued_input": zero}
 				if o.Class != ClsOK {
 					res.violate("C03", "exact-not-ok", "every parameter has an exactly matching input but the call did not succeed: "+o.Class, det)
 					return
+				}
+				if !again && r.Intn(2) == 0 {
+					defer func() {
+						// the same Func again with fresh values
+						n0 := in.W.NumEvents()
+						cf := factsNow(in)
+						o2 := DoCall(in.W, in.Target.Func, in.AllArgs(1, r))
+						res.Evals++
+						checkCall(in, &o2, &cf, 1, n0, &res)
+						checkExact(in, &o2, true)
+						res.obs("second_calls_on_the_same_func", 1)
+					}()
 				}
 				if n := convEvents(o.Events); n > 0 {
 					res.violate("C03", "converter-executed", fmt.Sprintf("%d converter execution(s) although every parameter has an exact input", n), det)
@@ -155,7 +174,8 @@ func init() {
 						res.obs("target_arguments_checked", 1)
 					}
 				}
-			})
+			}
+			outs, _ := runScenarioX(c, s, r, reps, &res, func(in *Inst) { in.ZeroInput1 = zero + 1 }, func(in *Inst, o *Outcome) { checkExact(in, o, false) })
 			res.obs("distractor_converters", int64(len(s.Convs)))
 			res.Sample = sampleOf(s, outs)
 			return res
@@ -210,9 +230,9 @@ func init() {
 					before[i] = in.W.Execs(i)
 				}
 				n0 := in.W.NumEvents()
+				cf := factsNow(in)
 				o2 := DoCall(in.W, in.Target.Func, in.AllArgs(1, r))
 				res.Evals++
-				cf := factsOf(&in.S)
 				checkCall(in, &o2, &cf, 1, n0, &res)
 				for i, cv := range in.Convs {
 					if cv.Spec.Once && before[i] >= 1 && in.W.Execs(i) != before[i] {
@@ -385,11 +405,16 @@ func init() {
 		Rule: "G-affinity: all ordered concrete type pairs (T,U), names from a pool of 5; mode A: one type-only converter T->U, target parameter n:U, inputs n:T plus 1-4 other named T values (optionally a typed T); " +
 			"oracle A: success, >= 1 converter event, every converter event's argument is the input named n. Mode B: additionally a converter taking n:T explicitly with the same output label; " +
 			"oracle B: the explicit-name converter ran, the type-only one did not, the target's argument comes from the explicit one. All converter forms, typed or n-named output, with/without error, shuffled order, unrelated distractors; R repetitions. " +
-			"non-trivial = >= 2 competing named inputs (A) / both converters present (B)",
+			"Mode C (1 case in 5): 2-3 named target parameters n_i:U all produced through ONE type-only converter T->U, each with its own same-named input n_i:T among other named T values; oracle: parameter n_i receives the output of an execution whose argument was the input named n_i. " +
+			"Mode D (1 in 5): the type-only converter has a second type-only input W that must itself be derived from T by another converter; oracle: the T argument of the main converter is still the input named n (which T feeds the nested conversion is not prescribed). " +
+			"non-trivial = >= 2 competing named inputs (A, C, D) / both converters present (B)",
 		Assumptions: []string{"both competing converters declare the same output label (the property compares how they take their input)"},
 		Run: func(c *CaseCtx) CaseResult {
 			var res CaseResult
 			r := caseRand(c.Seed, "C07", c.Idx)
+			if c.Idx%5 >= 3 {
+				return runC07Multi(c, r, names)
+			}
 			T := r.Intn(nConcrete)
 			U := (T + 1 + r.Intn(nConcrete-1)) % nConcrete
 			perm := r.Perm(len(names))
@@ -526,4 +551,114 @@ func init() {
 		Assumptions: []string{"hopeless = no supplied value and no converter output has the parameter's type, implements it or is MAY-related to it"},
 		Run:         runC13,
 	})
+}
+
+
+// runC07Multi: name affinity when several named parameters share one
+// type-only converter (mode C) and when the converter has a second input that
+// is itself derived from the same source type (mode D).
+func runC07Multi(c *CaseCtx, r *rand.Rand, names []string) (res CaseResult) {
+	perm3 := r.Perm(nConcrete)
+	T, U, W := perm3[0], perm3[1], perm3[2]
+	perm := r.Perm(len(names))
+	mode := 2 + r.Intn(2)
+	var s Scenario
+	var wanted []string
+	if mode == 2 {
+		np := 2 + r.Intn(2)
+		for i := 0; i < np; i++ {
+			wanted = append(wanted, names[perm[i]])
+		}
+		for i := 0; i < np+r.Intn(3); i++ {
+			s.Inputs = append(s.Inputs, Label{Name: names[perm[i]], Type: T})
+		}
+		conv := FuncSpec{In: []Label{{Type: T}}, Out: []Label{{Type: U}}, InForm: r.Intn(3), OutForm: r.Intn(3), HasErr: r.Intn(2) == 0}
+		s.Convs = []FuncSpec{conv}
+		var tin []Label
+		for _, n := range wanted {
+			tin = append(tin, Label{Name: n, Type: U})
+		}
+		r.Shuffle(len(tin), func(a, b int) { tin[a], tin[b] = tin[b], tin[a] })
+		s.Target = FuncSpec{In: tin, InForm: 1 + r.Intn(2)}
+	} else {
+		n := names[perm[0]]
+		wanted = []string{n}
+		s.Inputs = append(s.Inputs, Label{Name: n, Type: T})
+		for j := 0; j < 1+r.Intn(4); j++ {
+			s.Inputs = append(s.Inputs, Label{Name: names[perm[1+j]], Type: T})
+		}
+		outL := Label{Type: U}
+		if r.Intn(2) == 0 {
+			outL = Label{Name: n, Type: U}
+		}
+		in2 := []Label{{Type: T}, {Type: W}}
+		if r.Intn(2) == 0 {
+			in2[0], in2[1] = in2[1], in2[0]
+		}
+		conv1 := FuncSpec{In: in2, Out: []Label{outL}, InForm: r.Intn(3), OutForm: formFor([]Label{outL}, r, false), HasErr: r.Intn(2) == 0}
+		conv2 := FuncSpec{In: []Label{{Type: T}}, Out: []Label{{Type: W}}, InForm: r.Intn(3), OutForm: r.Intn(3), HasErr: r.Intn(2) == 0}
+		s.Convs = []FuncSpec{conv1, conv2}
+		if r.Intn(2) == 0 {
+			s.Convs = []FuncSpec{conv2, conv1}
+		}
+		s.Target = FuncSpec{In: []Label{{Name: n, Type: U}}, InForm: 1 + r.Intn(2)}
+	}
+	r.Shuffle(len(s.Inputs), func(a, b int) { s.Inputs[a], s.Inputs[b] = s.Inputs[b], s.Inputs[a] })
+	mainConv := -1
+	for i, cv := range s.Convs {
+		if cv.Out[0].Type == U {
+			mainConv = i
+		}
+	}
+	res.Key = fmt.Sprintf("mode%d %s", mode, s.Key())
+	res.NonTrivial = true
+	reps := tierReps(c.Tier, 5, 20)
+	outs, _ := runScenario(c, s, r, reps, &res, func(in *Inst, o *Outcome) {
+		det := map[string]interface{}{"scenario": s.String(), "mode": mode, "class": o.Class, "err": firstLine(errStr(o.Err)), "events": eventsStr(o.Events)}
+		if o.Class != ClsOK {
+			res.violate("C07", "not-ok", "affinity scenario did not succeed: "+o.Class, det)
+			return
+		}
+		// the name of the input a given execution of the main converter was fed with
+		fedBy := func(e *Event) string {
+			for _, a := range e.Args {
+				if a.Param.Type == T {
+					if org := in.W.Origin(a.ID); org != nil && org.Kind == OInput {
+						return org.Label.Name
+					}
+					return "?"
+				}
+			}
+			return "?"
+		}
+		execs := map[int]*Event{}
+		for _, e := range o.Events {
+			if e.Func == mainConv {
+				execs[e.Exec] = e
+			}
+		}
+		for _, e := range o.Events {
+			if e.Func != -1 {
+				continue
+			}
+			for _, a := range e.Args {
+				org := in.W.Origin(a.ID)
+				if org == nil || org.Kind != OConv || org.Func != mainConv {
+					res.violate("C07", "not-converted", fmt.Sprintf("parameter %v was not produced by the converter", a.Param), det)
+					continue
+				}
+				ce := execs[org.Exec]
+				if ce == nil {
+					continue
+				}
+				if got := fedBy(ce); got != a.Param.Name {
+					res.violate("C07", "wrong-input-converted", fmt.Sprintf("parameter %v was converted from the input named %q instead of the input named %q", a.Param, got, a.Param.Name), det)
+				}
+				res.obs("converter_arguments_checked", 1)
+			}
+		}
+	})
+	res.obs(fmt.Sprintf("mode%d_cases", mode), 1)
+	res.Sample = sampleOf(s, outs)
+	return res
 }
